@@ -109,9 +109,9 @@ Lemma all_reachable U l : univ_ok U -> linv U l ->
   forall k v, In (k, v) (l_entries l) -> treach (l_entries l) (oslice (l_heads l)) k.
 Proof.
   intros UO I k v Hin.
-  pose (lb := new_log (l_id l) 0 SLww []).
+  pose (lb := new_log (l_id l) 0 SLww [] 0).
   assert (G : greach (l_entries l) lb (map e_hash (oslice (l_heads l))) k).
-  { apply (missing_reachable U lb l UO (linv_new U _ _ _ _) I eq_refl (S (Z.to_nat (l_time l - e_time v))) k v); auto.
+  { apply (missing_reachable U lb l UO (linv_new U _ _ _ _ _) I eq_refl (S (Z.to_nat (l_time l - e_time v))) k v); auto.
     lia. }
   clear Hin. induction G as [h Hr|h e n G IH [Hg _] Hn].
   - apply in_map_iff in Hr. destruct Hr as [r [<- Hr]]. now apply tr_root.
